@@ -96,11 +96,10 @@ macro_rules! reload {
                 cur.set_position(0);
                 $wrap(<$ty>::deserialize_full(&mut cur).unwrap())
             }
-            "eps" => {
-                let mut cur = <AlignedCursor>::new();
-                b.serialize(&mut cur).unwrap();
-                let cur: &'static mut AlignedCursor = Box::leak(Box::new(cur));
-                BV::RoEps(<$ty>::deserialize_eps(cur.as_bytes()).unwrap())
+            "eps" | "eps8" => {
+                let mut bytes: Vec<u8> = Vec::new();
+                b.serialize(&mut bytes).unwrap();
+                BV::RoEps(<$ty>::deserialize_eps(leak_aligned(&bytes, $mode == "eps8")).unwrap())
             }
             _ => {
                 let dir = std::env::temp_dir();
@@ -120,6 +119,16 @@ macro_rules! reload {
 /// positions of the ones, obtained bit by bit through `get` (used only to
 /// call the unsafe hinted methods inside their preconditions; the
 /// specification re-derives both the precondition and the hint)
+/// An iterator over `bits` whose size hint is loose: (0, Some(len + slack)).
+/// `extend` and `collect` may use hints only as hints (C11: no surplus words).
+fn loose(bits: Vec<bool>, slack: usize) -> impl Iterator<Item = bool> {
+    bits.into_iter()
+        .map(|b| (b, true))
+        .chain(std::iter::repeat((false, false)).take(slack))
+        .filter(|x| x.1)
+        .map(|x| x.0)
+}
+
 fn naive_ones<B: AsRef<[usize]>>(b: &BitVec<B>) -> Vec<usize> {
     (0..b.len()).filter(|&i| b.get(i)).collect()
 }
@@ -190,7 +199,10 @@ pub fn run(ep: &Value, ctx: &mut Ctx) {
             "macro_list" | "collect" => guard(|| {
                 let bits = get_bools(op, "bits");
                 if name == "collect" {
-                    bits.into_iter().collect::<BitVec>()
+                    match op.get("slack").and_then(|v| v.as_u64()) {
+                        Some(k) => loose(bits, k as usize).collect::<BitVec>(),
+                        None => bits.into_iter().collect::<BitVec>(),
+                    }
                 } else {
                     // bit_vec![a, b, c] expands to with_capacity + push
                     let mut b = BitVec::with_capacity(bits.len());
@@ -231,7 +243,11 @@ pub fn run(ep: &Value, ctx: &mut Ctx) {
                 _ => Err("na".into()),
             },
             "extend" => match &mut bv {
-                BV::Vec(b) => guard(|| b.extend(get_bools(op, "bits"))).map(|_| json!({})),
+                BV::Vec(b) => guard(|| match op.get("slack").and_then(|v| v.as_u64()) {
+                    Some(k) => b.extend(loose(get_bools(op, "bits"), k as usize)),
+                    None => b.extend(get_bools(op, "bits")),
+                })
+                .map(|_| json!({})),
                 _ => Err("na".into()),
             },
             // ---------------- element access
